@@ -57,7 +57,8 @@ MIN = {
               'jinja_effective': 400, 'continuation_effective': 1200,
               'multiline_values': 2000, 'leaf_items': 20000,
               'feat:nested-include': 50, 'feat:include-in-multiline': 50,
-              'feat:jinja-for': 100, 'feat:repeated-graph-key': 200},
+              'feat:jinja-for': 100, 'feat:repeated-graph-key': 200,
+              'jinja_made_continuation_effective': 40},
     'thorough': {'files_checked': 20000, 'nontrivial_files': 15000,
                  'with_jinja': 6000, 'include_effective': 10000,
                  'jinja_effective': 6000, 'continuation_effective': 15000,
